@@ -137,16 +137,18 @@ def layout(root) -> None:
 
 
 def place(b: Built, idx: int, new) -> None:
-    """Put node `new` where node number idx is."""
+    """Put node `new` where node number idx is (found by identity, so that
+    it still works after an earlier mutation removed a sibling)."""
     parent, slot = b.where[idx]
+    old = b.nodes[idx]
     if slot[0] == 'root':
         b.root = new
     elif slot[0] == 'item':
-        parent.value[slot[1]] = new
+        parent.value = [new if x is old else x for x in parent.value]
     elif slot[0] == 'key':
-        parent.value[slot[1]] = (new, parent.value[slot[1]][1])
+        parent.value = [(new if k is old else k, v) for k, v in parent.value]
     else:
-        parent.value[slot[1]] = (parent.value[slot[1]][0], new)
+        parent.value = [(k, new if v is old else v) for k, v in parent.value]
     b.nodes[idx] = new
 
 
